@@ -261,3 +261,39 @@ def typed_map(i, key_sort, val_sort, default=None):
 
 TRUSTED["dict/defaultdict (symbolic keys)"] = "insertion-ordered finite map; defaultdict(int)[missing] inserts 0; iteration in insertion order"
 TRUSTED["set (symbolic elements)"] = "membership only; add is idempotent"
+
+
+# ------------------------------------------------------------------ a dictionary of index lists (defaultdict(list) filled with row numbers), read-only view
+class IdxFamily:
+    """family of integer lists indexed by an integer key: member c is the list of length len(c) with entries arr(c)[k]; both are
+    uninterpreted functions of c (the contract states what the lists contain)"""
+
+    def __init__(self, name):
+        self.name = name
+        self.len = z3.Function("idxfam_len!%s" % name, Int, Int)
+        self.arr = z3.Function("idxfam_arr!%s" % name, Int, z3.ArraySort(Int, Int))
+
+    def member(self, c):
+        return Seq(self.len(c), self.arr(c))
+
+
+from ..spec import Type as _Type  # noqa
+
+
+class TIdxFamily(_Type):
+    def __init__(self, name):
+        self.name = name
+
+    def fresh(self, ctx, name):
+        f = IdxFamily(self.name)
+        c = z3.Int("c!idf")
+        ctx.assume(z3.ForAll([c], f.len(c) >= 0, patterns=[f.len(c)]))
+        return f
+
+
+@hook("getitem")
+def _idxfam_get(i, v, ix, node):
+    if isinstance(v, IdxFamily):
+        c = to_z3(ix, Int) if not is_z3(ix) else ix
+        return SymList(v.member(c))
+    return NotImplemented
